@@ -9,7 +9,7 @@ import time
 
 ROOT = os.path.dirname(os.path.dirname(os.path.abspath(__file__)))
 REPO = os.environ.get("VERIF_REPO", "/repo")
-EVIDENCE_DIR = os.path.join(ROOT, "evidence")
+EVIDENCE_DIR = os.environ.get("VERIF_EVIDENCE_DIR") or os.path.join(ROOT, "evidence")
 REPLAY_DIR = os.path.join(ROOT, "out", "replay")
 KNOWN_FILE = os.path.join(ROOT, "known_findings.json")
 NCPU = max(1, min(16, os.cpu_count() or 1))
@@ -64,17 +64,21 @@ class Ctx:
                       if k.get("property") == prop]
 
     # ---- recording -----------------------------------------------------
-    def violation(self, signature, what, replay):
+    def violation(self, signature, what, replay, rank=0, count=1):
+        """keeps, per signature, the case with the lowest rank (smallest)"""
         v = self.viol.get(signature)
         if v is None:
-            self.viol[signature] = {"what": what, "replay": replay, "count": 1}
+            self.viol[signature] = {"what": what, "replay": replay,
+                                    "count": count, "rank": rank}
         else:
-            v["count"] += 1
+            v["count"] += count
+            if rank < v["rank"]:
+                v.update(what=what, replay=replay, rank=rank)
 
     def merge_violations(self, items):
         """items: iterable of (signature, what, replay) produced by workers"""
-        for sig, what, rep in items:
-            self.violation(sig, what, rep)
+        for it in items:
+            self.violation(*it)
 
     def sample(self, s, limit=6):
         if len(self.samples) < limit:
